@@ -86,6 +86,24 @@ def run_case(case):
                     break
             if viol:
                 break
+            # op-level: the algebra laws, composite vs parts, through the implementation's own matching
+            for (a_, b_) in [(case["sels"][i], case["sels"][(i + 1) % len(case["sels"])])]:
+                A, B = selections.build(a_), selections.build(b_)
+                for p in paths:
+                    ma, mb = bool(chained(A, p)), bool(chained(B, p))
+                    laws = (("and", bool(chained(A ^ B, p)), ma and mb), ("and_commuted", bool(chained(B ^ A, p)), ma and mb),
+                            ("or", bool(chained(A | B, p)), ma or mb), ("or_commuted", bool(chained(B | A, p)), ma or mb),
+                            ("not", bool(chained(~A, p)), not ma))
+                    for nm, got, want in laws:
+                        if got != want:
+                            viol.append(V("not_boolean_algebra", "composite_selection_is_boolean_combination",
+                                          f"law {nm} fails on path {'/'.join(p)} for s={selections.show(a_)}, t={selections.show(b_)}: "
+                                          f"composite={got}, parts give {want}", **sig))
+                            break
+                    if viol:
+                        break
+            if viol:
+                break
             # op-level: filter partitions
             sel_part, unsel_part = gf.filter(x, so)
             probes["filter"] += 1
